@@ -5,7 +5,8 @@
   slice custody     every call of a function of the *slice family* (functions with one `int` index and one `mjtNum*`
                     slice parameter that forward them unchanged to the per-stage compute functions / the cutoff function)
                     passes either its own (index, slice) pair or `d->sensordata + m->sensor_adr[I]` / a history slot of I
-                    with the very I it passes as index
+                    with the very I it passes as index; found in custody views (private helpers expanded inside their
+                    callers, nested) and enumerated as distinct deliveries (function, callee, index, slice)
   cutoff            typestate: a compute call for (I, S) is followed by the cutoff call for (I, S) on every returning path;
                     after a sensor callback (user / plugin) a sweep over all sensors applies the cutoff under guards that
                     are implied by the condition under which the callback ran
@@ -257,17 +258,123 @@ HISTORY_SLOT = {
 }
 
 
+def custody_views(unit, family):
+    """{function name: view} for the functions of this TU through which an (index, slice) pair reaches the slice family.
+
+    Private helpers (static, defined in the TU's own file, address never taken, not themselves in the family) are analysed
+    in place: their bodies are expanded inside their callers with the arguments substituted (norm.Inliner), so a driver
+    loop shared by the three stage entry points and parametrised by the stage is seen once per entry point -- with the
+    stage it is called with -- exactly like three hand-written copies.  A helper the inliner has to leave as a call
+    (it returns from inside a loop, or is called in an expression position) stays a function of its own.  The views are
+    nested (norm.nest)."""
+    from . import norm
+    fam = set(family)
+    own_file = lambda fn: (fn.get("file") or unit.tu) == unit.tu
+    callees = {n: {cir.callee(c) for c in cir.calls(fn)} - {None} for n, fn in unit.funcs.items()}
+    if not any(cs & fam for cs in callees.values()):
+        return {}
+    called_as = set()
+    for fn in unit.funcs.values():
+        for c in cir.calls(fn):
+            ce = cir.callee_expr(c)
+            if ce is not None and ce.get("k") == "DeclRefExpr":
+                called_as.add(id(ce))
+    addr_taken = set()
+    for root in list(unit.funcs.values()) + list(unit.vars.values()):
+        for x in cir.walk(root):
+            if x.get("k") == "DeclRefExpr" and (x.get("ref") or {}).get("k") == "FunctionDecl" and id(x) not in called_as:
+                addr_taken.add(x["ref"].get("n"))
+    private = {n for n, fn in unit.funcs.items()
+               if fn.get("storageClass") == "static" and own_file(fn) and n not in fam and n not in addr_taken}
+    reach = {n for n, cs in callees.items() if cs & fam}
+    changed = True
+    while changed:
+        changed = False
+        for n, cs in callees.items():
+            if n not in reach and cs & reach & private:
+                reach.add(n)
+                changed = True
+    inl = private & reach
+    views = {}
+    work = sorted(n for n in reach if n not in inl)
+    while work:
+        n = work.pop(0)
+        if n in views:
+            continue
+        I = norm.Inliner(unit, depth=6, pred=lambda h: h.get("n") in inl and h.get("n") != n)
+        # nested: the enclosing conditions of a call are its complete guard (early continue / return == else branch)
+        v = dict(norm.nest(_unique_inlined_ids(I.expand(unit.funcs[n]))))
+        v["inlined"] = sorted({h for _c, h, _l in I.inlined})
+        views[n] = v
+        for c in cir.calls(v):
+            cn = cir.callee(c)
+            if cn in inl and cn not in views and cn not in work:
+                work.append(cn)          # could not be analysed in place: a function of its own
+    return views
+
+
+def _unique_inlined_ids(fn):
+    """A helper expanded twice brings its locals (and by-value parameter copies) twice with the same declaration id; the
+    later copies get fresh ids so that `one declaration, never written` means what it says."""
+    seen = set()
+    n_fresh = [0]
+
+    def rename(n, ren):
+        if not isinstance(n, dict):
+            return n
+        out = {k: v for k, v in n.items() if k != "i"}
+        if out.get("k") == "VarDecl" and out.get("id") in ren:
+            out["id"] = ren[out["id"]]
+        elif out.get("k") == "DeclRefExpr" and (out.get("ref") or {}).get("id") in ren:
+            out["ref"] = dict(out["ref"], id=ren[out["ref"]["id"]])
+        if "i" in n:
+            out["i"] = [rename(c, ren) if c is not None else None for c in n["i"]]
+        return out
+
+    def rec(n):
+        if not isinstance(n, dict):
+            return n
+        if n.get("k") == "CompoundStmt" and n.get("inl"):
+            ids = [x.get("id") for x in cir.walk(n) if x.get("k") == "VarDecl"]
+            ren = {}
+            for i in ids:
+                if i in seen and i not in ren:
+                    n_fresh[0] += 1
+                    ren[i] = f"{i}~{n_fresh[0]}"
+            if ren:
+                n = rename(n, ren)
+            seen.update(x.get("id") for x in cir.walk(n) if x.get("k") == "VarDecl")
+        elif n.get("k") == "VarDecl":
+            seen.add(n.get("id"))
+        if "i" not in n:
+            return n
+        out = {k: v for k, v in n.items() if k != "i"}
+        out["i"] = [rec(c) if c is not None else None for c in n["i"]]
+        return out
+    return rec(fn)
+
+
 def slice_calls(unit, family):
-    """Call sites in this TU of functions in `family` {name: (index pos, slice pos)}:
-    each classified as forward / sensordata / history / other."""
+    """Deliveries of an (index, slice) pair to functions in `family` {name: (index pos, slice pos)} in this TU, each
+    classified as forward / sensordata / history / other.
+
+    The unit of enumeration is what is protected, not how often it is spelled: one record per *distinct*
+    (function view, callee, index, slice) -- call sites of one function that hand the same pair to the same callee (the
+    same call repeated on several branches, or merged into one) are one delivery (`sites` lists their lines), and the
+    functions are the custody views (private helpers analysed inside their callers).  Every call site is still
+    classified; a site that differs in index or slice is a record of its own."""
+    from . import norm
     out = []
-    for fname, fn in unit.funcs.items():
-        sites = [c for c in cir.calls(fn) if cir.callee(c) in family]
+    views = custody_views(unit, family)
+    for fname, fn in views.items():
+        sites = [c for c in cir.calls(fn) if cir.callee(c) in family]      # preorder of the view: execution order
         if not sites:
             continue
         decls, count = local_decls(fn)
         own = index_and_slice(fn)
-        for k, c in enumerate(sorted(sites, key=lambda x: (x.get("line") or 0, x.get("off") or 0))):
+        merged = {}
+        ords = {}
+        for c in sites:
             callee = cir.callee(c)
             ipos, spos = family[callee]
             a = cir.args(c)
@@ -276,11 +383,13 @@ def slice_calls(unit, family):
             ia, sa = cir.strip(a[ipos]), cir.strip(a[spos])
             itxt = resolved(ia, decls, count)
             stxt = resolved(sa, decls, count)
-            rec = {"function": fname, "callee": callee, "ord": k + 1, "file": fn.get("file") or unit.tu,
+            rec = {"function": fname, "callee": callee, "file": fn.get("file") or unit.tu,
                    "line": c.get("line"), "index": itxt, "slice": stxt, "kind": "other"}
+            own_ids = (cir.params(fn)[own[2]].get("id"), cir.params(fn)[own[3]].get("id")) if own is not None else None
             if own is not None and ia is not None and sa is not None and ia.get("k") == "DeclRefExpr" and \
-                    sa.get("k") == "DeclRefExpr" and cir.text(ia) == own[0] and cir.text(sa) == own[1]:
-                iid, sid = (ia.get("ref") or {}).get("id"), (sa.get("ref") or {}).get("id")
+                    sa.get("k") == "DeclRefExpr" and cir.text(ia) == own[0] and cir.text(sa) == own[1] and \
+                    ((ia.get("ref") or {}).get("id"), (sa.get("ref") or {}).get("id")) == own_ids:
+                iid, sid = own_ids
                 if count.get(iid, 0) == 0 and count.get(sid, 0) == 0:
                     rec["kind"] = "forward"
                     rec["own"] = (own[2], own[3])
@@ -296,6 +405,27 @@ def slice_calls(unit, family):
                         b = _split_sum(resolved(cir.args(s2)[0], decls, count))
                         if b is not None and b[0].endswith("->history") and _adr_of(b[1], "sensor_historyadr") == itxt:
                             rec["kind"] = "history"
+            # sensor types the guards of this call rule out for sensor `index`: atoms `m->sensor_type[index] == E` that are
+            # false here (E's early continue / the else branch of E's arm), through the local the type was read into
+            excl = set()
+            for g, pol in norm.guards(fn, c) or ():
+                if g.get("k") == "BinaryOperator" and g.get("op") == "==" and not pol:
+                    x, y = cir.kids(g)
+                    for lab, subj in ((x, y), (y, x)):
+                        e = enum_of(lab)
+                        if e is not None and resolved(subj, decls, count).endswith(f"->sensor_type[{itxt}]"):
+                            excl.add(e)
+            key = (callee, rec["kind"], itxt, stxt, rec.get("why"))
+            if key in merged:
+                merged[key]["sites"].append(c.get("line"))
+                merged[key]["excluded_types"] = sorted(set(merged[key]["excluded_types"]) & excl)
+                continue
+            rec["excluded_types"] = sorted(excl)
+            ords[callee] = ords.get(callee, 0) + 1
+            rec["ord"] = ords[callee]
+            rec["sites"] = [c.get("line")]
+            rec["inlined"] = list(fn.get("inlined") or ())
+            merged[key] = rec
             out.append(rec)
     return out
 
